@@ -917,7 +917,8 @@ class Bag(DaskMethodsMixin):
         if initial is not no_default:
             return self.reduction(
                 curry(_reduce, binop, initial=initial),
-                curry(_reduce, combine),
+                # if every partition is empty there is nothing to combine
+                curry(_reduce, combine, default=initial),
                 split_every=split_every,
                 out_type=out_type,
             )
@@ -1737,11 +1738,13 @@ class Bag(DaskMethodsMixin):
 
 def accumulate_part(binop, seq, initial, is_first=False):
     if initial is no_default:
+        # no ``initial`` was given and every partition before this one (if any)
+        # was empty: there is nothing to carry over yet
         res = list(accumulate(binop, seq))
-    else:
-        res = list(accumulate(binop, seq, initial=initial))
+        return res, res[-1] if res else no_default
+    res = list(accumulate(binop, seq, initial=initial))
     if is_first:
-        return res, res[-1] if res else [], initial
+        return res, res[-1]
     return res[1:], res[-1]
 
 
@@ -2367,9 +2370,17 @@ def map_partitions(func, *args, **kwargs):
     return return_type(graph, name, npartitions)
 
 
-def _reduce(binop, sequence, initial=no_default):
+def _reduce(binop, sequence, initial=no_default, default=no_default):
     if initial is not no_default:
         return reduce(binop, sequence, initial)
+    elif default is not no_default:
+        # like ``reduce(binop, sequence)`` but ``default`` for an empty sequence
+        sequence = iter(sequence)
+        try:
+            head = next(sequence)
+        except StopIteration:
+            return default
+        return reduce(binop, sequence, head)
     else:
         return reduce(binop, sequence)
 
